@@ -149,13 +149,21 @@ pub fn corrupt(rng: &mut Rng, b: &mut Vec<u8>) -> &'static str {
             }
             let per = l.s / 128;
             let n = l.dir_sectors.len() * per;
-            let i = rng.below(n.min(12) as u64) as usize;
+            // prefer an entry that is in use (a few tries), so that link corruptions sit where open walks
+            let mut i = rng.below(n.min(12) as u64) as usize;
+            for _ in 0..3 {
+                let bs = (l.dir_sectors[i / per] + 1) * l.s + (i % per) * 128;
+                if bs + 67 < b.len() && b[bs + 66] != 0 {
+                    break;
+                }
+                i = rng.below(n.min(12) as u64) as usize;
+            }
             let base = (l.dir_sectors[i / per] + 1) * l.s + (i % per) * 128;
             match rng.below(12) {
                 0 => { wr16(b, base + 64, *rng.pick(&[0u16, 1, 2, 3, 62, 64, 65, 66, 0xffff])); "dir-name-len" }
                 1 => { if base + 66 < b.len() { b[base + 66] = *rng.pick(&[0u8, 1, 2, 3, 4, 5, 6, 255]); } "dir-type" }
                 2 => { if base + 67 < b.len() { b[base + 67] = *rng.pick(&[0u8, 1, 2, 255]); } "dir-colour" }
-                3 | 4 => { let v = match rng.below(3) { 0 => i as u32, 1 => rng.below(n as u64 + 2) as u32, _ => special(rng, n) }; wr32(b, base + 68 + 4 * rng.below(3) as usize, v); "dir-link" }
+                3 | 4 => { let v = match rng.below(5) { 0 => i as u32, 1 => rng.below(n as u64 + 2) as u32, 2 => n as u32, 3 => (n as u32).wrapping_sub(1), _ => special(rng, n) }; wr32(b, base + 68 + 4 * rng.below(3) as usize, v); "dir-link" }
                 5 | 6 => { let v = special(rng, l.nsec); wr32(b, base + 116, v); "dir-start-sector" }
                 7 | 8 => {
                     let v: u64 = *rng.pick(&[0u64, 1, 63, 64, 65, 4095, 4096, 4097, 1 << 20, 1 << 31, (1 << 32) - 1, 1 << 32, u64::MAX, 100, 5000, 1 << 63, (1 << 63) + 10, 0xFFFF_FFFF_FFFF_FFF0, u64::MAX - 1]);
